@@ -51,3 +51,48 @@ Proof.
   - exact (creachF_alphabet true ex_hp ex_hp fx_hd fx_host_wf fx_host_ok fx_ip_disp fx_ip_okv u3 R3).
   - exact (creachF_sharp true ex_hp ex_hp fx_hd fx_host_wf fx_host_ok fx_ip_disp fx_ip_okv u3 R3).
 Qed.
+
+(* ---------- the hypotheses of the host-clause theorem are met ---------- *)
+From RU Require Import Proofs.C05_HostText Proofs.C05_HostClause.
+
+Definition okb_text (s : list N) : Prop := Forall ok_byte s.
+
+Lemma fx_host_spq : HostSpQ ex_hp fx_hd okb_text.
+Proof.
+  split.
+  - intros s h E _. apply fx_host_ok. right. left. exists s. exact E.
+  - exact fx_ip_okv.
+Qed.
+
+(* parse "http://h.x/a?q" satisfies FInv and HC; quirks set_host "o.x:81" is a gated step; the result has the host
+   text "o.x" *)
+Definition hc_example_stmt : Prop :=
+  HostSpQ ex_hp fx_hd okb_text
+  /\ exists u0 u1, parse_url true ex_hp ex_hp fx_hd None None (B "http://h.x/a?q") = POk u0
+       /\ FInv true u0 /\ HC okb_text u0 /\ GHistF true ex_hp ex_hp fx_hd u0 u1
+       /\ host_str u1 = Some (Some (B "o.x")) /\ HC okb_text u1.
+
+Lemma hc_example : hc_example_stmt.
+Proof.
+  split; [exact fx_host_spq|].
+  destruct (parse_url true ex_hp ex_hp fx_hd None None (B "http://h.x/a?q")) as [u0| |] eqn:E0;
+    [|vm_compute in E0; discriminate ..].
+  pose proof (creachF_inv true ex_hp ex_hp fx_hd fx_host_wf fx_host_ok fx_ip_disp fx_ip_okv u0
+                (CRF_parse true ex_hp ex_hp fx_hd None _ u0 E0)) as F0.
+  vm_compute in E0. injection E0 as <-.
+  match type of F0 with FInv _ ?u =>
+    destruct (apply_op true ex_hp ex_hp fx_hd u (OQHost (B "o.x:81"))) as [u1|] eqn:E1;
+      [|vm_compute in E1; discriminate] end.
+  pose proof E1 as E1'. vm_compute in E1'. injection E1' as <-.
+  match type of E1 with apply_op _ _ _ _ ?u ?o = Some ?u' => exists u, u' end.
+  split; [reflexivity|]. split; [exact F0|].
+  match goal with |- HC _ ?u /\ _ => assert (HC okb_text u) as H0 end.
+  { intros _ s Hs. vm_compute in Hs. inversion Hs; subst s. repeat constructor; unfold ok_byte; lia. }
+  split; [exact H0|].
+  match goal with |- GHistF _ _ _ _ ?u ?u' /\ _ => assert (GHistF true ex_hp ex_hp fx_hd u u') as G end.
+  { eapply GF_step; [ | exact E1 | apply GF_refl]. cbn [step_gate3]. split.
+    - intros X. vm_compute in X. discriminate.
+    - intros _ X. vm_compute in X. discriminate. }
+  split; [exact G|]. split; [vm_compute; reflexivity|].
+  exact (proj2 (hc_history true ex_hp ex_hp fx_hd okb_text fx_host_spq fx_host_wf fx_ip_disp fx_host_ok fx_ip_okv _ _ G F0 H0)).
+Qed.
